@@ -239,6 +239,7 @@ func init() {
 			c.ServicePositions("C20")
 			c.ScatterIndexDiscipline("C20")
 			c.LockReleased("C20")
+			c.ConstIndexGuarded("C20")
 			c.ExplicitPanics("C20")
 			c.ResultBeforeErrorCheck("C20")
 			c.GateTypestate("C20")
